@@ -4,10 +4,10 @@
      2  dial worker loop        (SpecWorker.v)
      3  dialSync                (SpecSync.v)
      4  DefaultDialRanker       (SpecRanker.v)
-     5  whole Swarm.DialPeer    (SpecDialPeer.v; monitor only)
+     5  whole Swarm.DialPeer    (SpecDialPeer.v monitor, SpecComposite.v replay)
    No proofs here. *)
 From Coq Require Import List ZArith Bool.
-From Verif Require Import lib.Wire c05.SpecLimiter c05.SpecWorker c05.SpecRanker c05.SpecSync c05.SpecDialPeer.
+From Verif Require Import lib.Wire c05.SpecLimiter c05.SpecWorker c05.SpecRanker c05.SpecSync c05.SpecDialPeer c05.SpecComposite.
 Import ListNotations.
 Local Open Scope Z_scope.
 
